@@ -22,6 +22,10 @@ pub struct Case {
     pub analytic_jac: bool,
     pub max_step: Option<f64>,
     pub recipes: Vec<EvRecipe>,
+    /// first_step as a fraction of the span (error-controlled methods; the output handler then reports the first
+    /// interval through its own interpolation path)
+    #[serde(default)]
+    pub first_step: Option<f64>,
 }
 
 pub fn opts(c: &Case, n: usize, dense: bool, t_eval: Option<Vec<f64>>) -> RunOpts {
@@ -31,7 +35,7 @@ pub fn opts(c: &Case, n: usize, dense: bool, t_eval: Option<Vec<f64>>) -> RunOpt
         rtol: c.rtol.fit(n),
         atol: c.atol.fit(n),
         // RK4: fixed step; half of the time it does not divide the span, so that the last step is a clipped one
-        first_step: if c.method == Meth::RK4 { Some(sp.len() * sp.dir() / if c.analytic_jac { 64.0 } else { 63.37 }) } else { None },
+        first_step: if c.method == Meth::RK4 { Some(sp.len() * sp.dir() / if c.analytic_jac { 64.0 } else { 63.37 }) } else { c.first_step.map(|f| f * sp.len()) },
         max_step: c.max_step.map(|f| f * sp.len()),
         max_steps: None,
         t_eval,
@@ -55,6 +59,19 @@ pub fn phase1(c: &Case, prob: &Prob) -> Result<Solution, String> {
         }
         other => Err(other.describe().chars().take(30).collect()),
     }
+}
+
+/// accepted-step ends and states seen through the events hook (the root finder's own calls lie inside the
+/// current step and never set a new record)
+pub fn step_grid(log: &Log, d: f64) -> (Vec<f64>, Vec<Vec<f64>>) {
+    let idx = step_end_calls(&log.ev_t, d);
+    (idx.iter().map(|&k| log.ev_t[k]).collect(), idx.iter().map(|&k| log.ev_y[k].clone()).collect())
+}
+
+struct GridView {
+    t: Vec<f64>,
+    y: Vec<Vec<f64>>,
+    t_events: Vec<Vec<f64>>,
 }
 
 pub fn resolve(c: &Case, plain: &Solution) -> Vec<(EvSpec, f64)> {
@@ -85,6 +102,7 @@ pub fn check(c: &Case) -> Outcome {
     let mut instr = Instr::new(&prob, &evs);
     instr.dir = d;
     instr.use_jac = c.analytic_jac;
+    instr.rec_ev = true;
     let sol = match solve(&instr, sp.x0, sp.xend, &prob.y0(), &opts(c, n, false, None)) {
         RunResult::Ok(s) => s,
         other => return Outcome::viol(format!("{}: plain run succeeded but the run with events gives {}", c.method.name(), other.describe())),
@@ -92,8 +110,14 @@ pub fn check(c: &Case) -> Outcome {
     if !bits_eq(&sol.t, &plain.t) {
         return Outcome::triv("grid-changed(owned by C12)");
     }
+    // the accepted steps as the solver took them (with first_step the reported samples are not the step ends)
+    let (gt, gy) = step_grid(&instr.take_log(), d);
+    let sol = GridView { t: gt, y: gy, t_events: sol.t_events.clone() };
     let name = c.method.name();
     let m = sol.t.len();
+    if m < 2 {
+        return Outcome::triv("no-step");
+    }
     let mut sign_changes = 0usize;
     let mut multi_steps = 0usize;
     let mut per_step_changes = vec![0usize; m.saturating_sub(1)];
@@ -181,12 +205,12 @@ pub fn strategy() -> BoxedStrategy<Case> {
     // ordinary spans; one case in twelve runs on a picosecond-scale time axis (accepted steps shorter than the
     // root finder's absolute time tolerance)
     let span = prop_oneof![11 => span_mid().boxed(), 1 => (fr(-11.3, -8.0), any::<bool>()).prop_map(|(e, back)| mk_span(0.0, 10f64.powf(e), back)).boxed()];
-    (prob_spec(4, 0.5, 8.0), span, any_method(), tols(4, 3.0, 9.0), any::<bool>(), proptest::option::weighted(0.2, log10(-1.5, 0.0)))
-        .prop_flat_map(|(prob, span, method, tol, aj, ms)| {
+    (prob_spec(4, 0.5, 8.0), span, any_method(), tols(4, 3.0, 9.0), any::<bool>(), proptest::option::weighted(0.2, log10(-1.5, 0.0)), proptest::option::weighted(0.25, log10(-3.0, -0.7)))
+        .prop_flat_map(|(prob, span, method, tol, aj, ms, fs)| {
             let n: usize = prob.blocks.iter().map(|b| b.dim()).sum();
-            (Just((prob, span, method, tol, aj, ms)), recipes(n, 4, 0.0))
+            (Just((prob, span, method, tol, aj, ms, fs)), recipes(n, 4, 0.0))
         })
-        .prop_map(|((prob, span, method, (rtol, atol), analytic_jac, max_step), recipes)| Case { prob, span, method, rtol, atol, analytic_jac, max_step, recipes })
+        .prop_map(|((prob, span, method, (rtol, atol), analytic_jac, max_step, first_step), recipes)| Case { prob, span, method, rtol, atol, analytic_jac, max_step, recipes, first_step })
         .boxed()
 }
 
